@@ -5,7 +5,7 @@ from vlib import core
 THEOREMS = ["Props.C11." + t for t in [
     "schema_ok", "codec_roundtrip", "request_roundtrip", "response_roundtrip", "marshal_total", "write_ends_with_stop",
     "compress_decompress", "trailer_detected", "trailer_absent", "trailer_ignored_by_reader",
-    "version_gate", "params_order", "fault_fails", "answer_honoured", "warnings_shown_on_failure", "each_generate_runs_own_plugins"]]
+    "version_gate", "params_order", "fault_fails", "answer_honoured", "warnings_shown_on_failure", "each_generate_runs_own_plugins", "plugin_params_own"]]
 
 
 def run(ctx):
